@@ -528,6 +528,7 @@ static void run_unit(const str &prop, const Scope &sc, const Cell &cell, Totals 
   std::vector<SubCell> subs = subcells_for(prop, sc, cell);
   CA = Cache();
   CELLINFO = fmt("pal=%s,stretch=%d,sigma=%d,L=%d,nf=%d,pre=%d,rep=%d", PALETTES[cell.pal].name, cell.stretch, cell.sigma, cell.L, sc.nf, cell.pre, cell.rep);
+  if (!cell.family.empty()) CELLINFO += ",family=" + cell.family;
   int start = 0;
   T.units++;
   while (start < (int)subs.size()) {
@@ -627,7 +628,7 @@ static str cell_sample(const Cell &cell, const Unit &u, size_t nsubs) {
 }
 
 int main(int argc, char **argv) {
-  str prop, scope_s, out, shard = "0/1", one_kind, one_params, one_strings, one_src, one_Q;
+  str prop, scope_s, out, shard = "0/1", one_kind, one_params, one_strings, one_src, one_Q, one_family;
   double deadline = 1e18, subto = 20;
   bool one = false; int one_sigma = 2, one_L = 2, one_stretch = 1, one_pal = 0, one_nf = 2, one_pre = 0, one_rep = 1;
   for (int i = 1; i < argc; i++) {
@@ -639,7 +640,7 @@ int main(int argc, char **argv) {
     else if (a == "--one") one = true; else if (a == "--kind") one_kind = nx(); else if (a == "--params") one_params = nx();
     else if (a == "--strings") one_strings = nx(); else if (a == "--src") one_src = nx();
     else if (a == "--sigma") one_sigma = atoi(nx().c_str()); else if (a == "--L") one_L = atoi(nx().c_str());
-    else if (a == "--stretch") one_stretch = atoi(nx().c_str()); else if (a == "--pal") one_pal = pal_by_name(nx()); else if (a == "--nf") one_nf = atoi(nx().c_str()); else if (a == "--pre") one_pre = atoi(nx().c_str()); else if (a == "--rep") one_rep = atoi(nx().c_str());
+    else if (a == "--stretch") one_stretch = atoi(nx().c_str()); else if (a == "--pal") one_pal = pal_by_name(nx()); else if (a == "--nf") one_nf = atoi(nx().c_str()); else if (a == "--pre") one_pre = atoi(nx().c_str()); else if (a == "--rep") one_rep = atoi(nx().c_str()); else if (a == "--family") one_family = nx();
   }
   __sanitizer_install_malloc_and_free_hooks(malloc_hook, free_hook);
   pg_init();
@@ -656,6 +657,7 @@ int main(int argc, char **argv) {
     std::sort(cell.S.begin(), cell.S.end(), ult);
     cell.Q = query_universe(PALETTES[one_pal], one_sigma, one_L, one_stretch, one_nf);
     shape_queries(cell, one_pal, one_pre, one_rep);
+    if (!one_family.empty()) { cell.family = one_family; cell.Q = family_queries(cell.S); }
     Scope sc; sc.kinds = {kind_by_name(one_kind)}; sc.pd = "one";
     // run exactly that sub-cell through run_unit machinery
     std::vector<SubCell> subs = {{kind_by_name(one_kind), Params::parse(one_params), one_src}};
@@ -689,12 +691,13 @@ int main(int argc, char **argv) {
   int si = atoi(shard.c_str()), sn = atoi(shard.substr(shard.find('/') + 1).c_str());
   long idx = 0;
   std::set<str> distinct_cells;
+  if (!sc.family.empty()) { sets.clear(); for (int d : sc.depths) sets.push_back((setmask)d); sc.pals = {0}; sc.stretches = {1}; sc.pres = {0}; }
   for (setmask mask : sets) for (int pal : sc.pals) for (int st : sc.stretches) for (int pre : sc.pres) {
     long my = idx++; units_total++;
     if (my % sn != si) continue;
     if (now_s() > deadline) { complete = false; continue; }
     Unit u = {mask, pal, st, pre};
-    Cell cell = make_cell(sc, U, u);
+    Cell cell = sc.family.empty() ? make_cell(sc, U, u) : make_family_cell(sc, (int)mask);
     if (T.samples.size() < 3 || (T.units % 997 == 0 && T.samples.size() < 6)) T.samples.push_back(cell_sample(cell, u, subcells_for(prop, sc, cell).size()));
     run_unit(prop, sc, cell, T, subto);
   }
